@@ -80,6 +80,9 @@ class SsbGraphMinimizer:
         for rtn_id, rtn in enumerate(routine_ops):
             g = Graph(directed=True)
             self._graphs.append(g)
+            # The search cache is keyed by id(g). Entries of a graph that is gone (a decompilation that failed over to
+            # SsbScript, or a pass that left its last result behind) must not be read by a new graph that got the same id.
+            find_first_common_next_vertex_in_edges__clear_cache(g)
             if len(rtn) < 1:
                 # Should not happen
                 continue
